@@ -168,6 +168,15 @@ func (q *queue) processACK(seq uint8) bool {
 		return false
 	}
 
+	// Sequence numbers live in [0, s). Anything else cannot be an ACK for
+	// a packet we sent, so it must not touch the window bookkeeping.
+	if seq >= q.cfg.s {
+		q.cfg.log.Tracef("Received ack %d outside of the sequence "+
+			"space. Ignoring.", seq)
+
+		return false
+	}
+
 	q.syncer.processACK(seq)
 
 	q.baseMtx.Lock()
@@ -228,6 +237,15 @@ func (q *queue) processNACK(seq uint8) (bool, bool) {
 	defer q.topMtx.RUnlock()
 
 	q.cfg.log.Tracef("Received NACK %d", seq)
+
+	// Sequence numbers live in [0, s). Anything else cannot refer to a
+	// packet we sent, so it must not touch the window bookkeeping.
+	if seq >= q.cfg.s {
+		q.cfg.log.Tracef("NACK seq %d is outside of the sequence "+
+			"space. Ignoring.", seq)
+
+		return false, false
+	}
 
 	q.syncer.processNACK(seq)
 
